@@ -1450,7 +1450,7 @@ def check_fast_against(chk, tier, strict):
     fast_register(FAST_AG)
     pre = 'C11.Fast.is_pareto_optimal_against.%s' % ('strict' if strict else 'nonstrict')
     Fn(chk, tier, FAST_AG, fast_against_entry(strict), fast_post(pre, 'against'), replay_of=replay_points('fast_against'),
-       bounded_sizes=[(2, 2, 2, 1), (3, 2, 2, 1), (2, 3, 2, 2)], rename=support_rename(pre), workers=3, expect_paths=5,
+       bounded_sizes=[(4, 1, 2, 1), (4, 2, 2, 1), (4, 2, 3, 2)], rename=support_rename(pre), workers=3, expect_paths=5,
        timeout_ms=8000 if tier == 'quick' else 60000).run()
 
 
